@@ -75,6 +75,8 @@ def _gen_component(rng):
         if kind == "demodulator":
             comp["soft"] = rng.random() < 0.45
             comp["noise_var"] = round(10 ** rng.uniform(-2, 1), 4)
+            # every sample was received at its own SNR: the noise variance is given per batch member
+            comp["nv_per_member"] = comp["soft"] and rng.random() < 0.35
         return comp
     c = rng.choice(["total", "average", "papr", "per_antenna"])
     return {"kind": kind, "constraint": c, "value": round(10 ** rng.uniform(-1, 1), 4), "complex": rng.random() < 0.4,
@@ -125,6 +127,13 @@ def gen_case(run_seed: int, index: int, tier: str) -> dict:
                     # (SIMD lane vs tail), which no library code controls, so float-path ties are not generated
                     mags = [round(rng.uniform(0.1, 8.0), 7) for _ in range(n)]
                     samples.append([(1 - 2 * b) * m for b, m in zip(word, mags)])
+            if kind == "decoder_soft" and rng.random() < 0.12:
+                # one received word carries infinitely reliable positions (a noiseless reference row, pinned bits). Nothing is
+                # asked about that word itself (inf - inf is undefined); it must not change the answers of its neighbours
+                u = rng.randrange(npool)
+                for p in rng.sample(range(n), rng.choice([1, 2, n])):
+                    samples[u][p] = math.copysign(float("inf"), samples[u][p])
+                case["unjudged"] = [u]
             comp["n_in"] = k if kind == "encoder" else n
         elif kind in ("modulator", "demodulator"):
             m, _ = C.build_modem(comp["mod"], comp["via_registry"])  # a fresh pair (modems are never cached by the catalogue)
@@ -245,8 +254,8 @@ def _component_obj(comp, fresh=False, obj=None):
     if kind == "demodulator":
         d = obj if obj is not None else _modem(comp, fresh)[1]
         if comp["soft"]:
-            nv = comp["noise_var"]
-            return (lambda y, second=False: d(y, nv)), type(d).__name__ + "[soft]", d
+            nv0 = comp["noise_var"]
+            return (lambda y, second=False, nv=None: d(y, nv0 if nv is None else nv)), type(d).__name__ + "[soft]", d
         return (lambda y, second=False: d(y)), type(d).__name__ + "[hard]", d
     import kaira.constraints as K
 
@@ -300,6 +309,10 @@ def _sample_tensor(comp, s):
             t = torch.complex(t[:, 0], t[:, 1])
         return t.reshape(A, n) if A else t.reshape(n)
     return torch.tensor(s, dtype=torch.float32)
+
+
+def _member_nv(comp, m):
+    return round(comp["noise_var"] * (1.0, 0.25, 4.0, 10.0, 0.5)[m % 5], 6)
 
 
 def _assemble(comp, tensors, layout):
@@ -395,6 +408,7 @@ def execute(case: dict) -> RunResult:
     elif kind == "demodulator":
         want_len = comp["nsym"] * comp["bps"]
     tensors = [_sample_tensor(comp, s) for s in case["samples"]]
+    unjudged = set(case.get("unjudged") or [])
     answers = {i: [] for i in range(len(tensors))}  # sample -> [(context, tensor)]
     answers2 = {i: [] for i in range(len(tensors))}  # the optional second outputs, compared among themselves
 
@@ -436,9 +450,23 @@ def execute(case: dict) -> RunResult:
                 res.faults[f"history.{call['via']}"] += 1
             except Exception:
                 f = fn
+        kw = {}
+        if comp.get("nv_per_member"):
+            nvs = [_member_nv(comp, m) for m in members]
+            if lay_kind in ("1d", "single"):
+                kw["nv"] = nvs[0] if ci % 2 else torch.tensor(nvs[0])
+            elif lay_kind in ("batch1", "2d", "batch"):
+                kw["nv"] = torch.tensor(nvs, dtype=torch.float32).reshape(-1, 1)
+            elif lay_kind == "3d":
+                b1_, b2_ = map(int, lay[3:].split("x"))
+                kw["nv"] = torch.tensor(nvs, dtype=torch.float32).reshape(b1_, b2_, 1)
+            else:  # several blocks per row: one value per symbol position
+                B_, b_ = map(int, lay[7:].split("x"))
+                kw["nv"] = torch.tensor(nvs, dtype=torch.float32).reshape(B_, b_, 1).expand(B_, b_, comp["nsym"]).reshape(B_, -1).contiguous()
+            res.probes["noise_var.per_member"] += 1
         try:
             with torch.no_grad(), contextlib.redirect_stdout(io.StringIO()):
-                out = f(x, second=bool(call.get("second")))
+                out = f(x, second=bool(call.get("second")), **kw)
         except Exception as e:
             log.add("call", {"i": ci, "layout": lay, "members": members, "raised": type(e).__name__})
             res.probes[f"rejected.{lay_kind}"] += 1
@@ -462,6 +490,9 @@ def execute(case: dict) -> RunResult:
             violate("output_dim", f"call {ci} ({lay}, members {members}, input shape {list(x.shape)}) returned shape {oshape}: {firsts[0].shape[-1] if firsts[0].dim() else 0} values per sample instead of {want_len}", layout=lay_kind)
             continue
         for pos, (m, part) in enumerate(zip(members, parts)):
+            if m in unjudged:
+                res.faults["delivery.neighbour_with_non_finite_values"] += 1
+                continue
             ctxd = {"call": ci, "layout": lay_kind, "pos": pos, "batch": len(members), "fresh": call["fresh"], "dtype": call.get("dtype")}
             if isinstance(part, tuple):  # (decoded, second output): the first part joins the common answer set
                 answers[m].append((ctxd, part[0].clone()))
